@@ -32,10 +32,30 @@ func c07State(versioned bool) *s3mem.Backend {
 }
 
 // c07Op runs operation op on b and renders its observable result.
-func c07Op(b gofakes3.Backend, op int, body []byte) string {
+// c07Gate, when set, is the flag the other client raises when it is done: an
+// upload's body then arrives only after that (natively a short wait, see
+// vsym.YieldUntil; symbolically one more scheduling point), which makes "the
+// other client ran while the body was in flight" replayable.
+type gatedBody struct {
+	inner io.Reader
+	gate  *int32
+	fired bool
+}
+
+func (g *gatedBody) Read(p []byte) (int, error) {
+	if g.gate != nil && !g.fired {
+		g.fired = true
+		vsym.YieldUntil(g.gate)
+	}
+	return g.inner.Read(p)
+}
+
+func c07Op(b gofakes3.Backend, op int, body []byte) string { return c07OpGated(b, op, body, nil) }
+
+func c07OpGated(b gofakes3.Backend, op int, body []byte, gate *int32) string {
 	switch op {
 	case 0: // put k
-		r, err := b.PutObject("bkt", "k", map[string]string{}, bytes.NewReader(body), int64(len(body)))
+		r, err := b.PutObject("bkt", "k", map[string]string{}, &gatedBody{inner: bytes.NewReader(body), gate: gate}, int64(len(body)))
 		if err != nil {
 			return "put-error"
 		}
@@ -205,12 +225,17 @@ func c07Linearizable(mk func() gofakes3.Backend, tag string) {
 	s := mk()
 	ra := make([]string, nA)
 	var rb string
+	var doneA, doneB int32
 	vsym.Go(func() {
 		for i := range opsA {
-			ra[i] = c07Op(s, opsA[i], bodiesA[i])
+			ra[i] = c07OpGated(s, opsA[i], bodiesA[i], &doneB)
 		}
+		vsym.SetFlag(&doneA)
 	})
-	vsym.Go(func() { rb = c07Op(s, opB, bodyB) })
+	vsym.Go(func() {
+		rb = c07OpGated(s, opB, bodyB, &doneA)
+		vsym.SetFlag(&doneB)
+	})
 	vsym.Join()
 	f := c07Final(s)
 
